@@ -638,7 +638,7 @@ func (p *SelectForm) typecheckForm(gammaNameTypesCtx NamesTypesCtx, providerShad
 
 			// Set types
 			p.to_c.Type = clientBranchCaseType
-			p.continuation_c.Type = continuationType
+			p.continuation_c.Type = types.Unfold(continuationType, labelledTypesEnv)
 		} else {
 			return TypeErrorf("could not match label '%s' (from '%s') with the labels from the type '%s'", p.label.String(), p.String(), clientBranchCaseType.String())
 		}
@@ -692,7 +692,7 @@ func (p *CaseForm) typecheckForm(gammaNameTypesCtx NamesTypesCtx, providerShadow
 			}
 
 			// Set type
-			curBranchForm.payload_c.Type = expectedBranchType.SessionType
+			curBranchForm.payload_c.Type = types.Unfold(expectedBranchType.SessionType, labelledTypesEnv)
 
 			polarityError := checkExplicitPolarityValidity(p, curBranchForm.payload_c)
 			if polarityError != nil {
@@ -764,7 +764,7 @@ func (p *CaseForm) typecheckForm(gammaNameTypesCtx NamesTypesCtx, providerShadow
 			newGammaNameTypesCtx[curBranchForm.payload_c.Ident] = NamesType{Type: expectedBranchType.SessionType}
 
 			// Set type
-			curBranchForm.payload_c.Type = expectedBranchType.SessionType
+			curBranchForm.payload_c.Type = types.Unfold(expectedBranchType.SessionType, labelledTypesEnv)
 
 			polarityError := checkExplicitPolarityValidity(p, curBranchForm.payload_c)
 			if polarityError != nil {
@@ -1110,7 +1110,7 @@ func (p *DropForm) typecheckForm(gammaNameTypesCtx NamesTypesCtx, providerShadow
 
 		if types.IsWeakenable(clientType) {
 			// Set type
-			p.client_c.Type = clientType
+			p.client_c.Type = types.Unfold(clientType, labelledTypesEnv)
 
 			// compare annotated polarities
 			polarityError := checkExplicitPolarityValidity(p, p.client_c)
@@ -1170,7 +1170,7 @@ func (p *CallForm) typecheckForm(gammaNameTypesCtx NamesTypesCtx, providerShadow
 			}
 
 			// Set types
-			p.parameters[i].Type = foundParamType
+			p.parameters[i].Type = types.Unfold(foundParamType, labelledTypesEnv)
 
 			// compare annotated polarities
 			polarityError := checkExplicitPolarityValidity(p, p.parameters[i])
@@ -1206,7 +1206,7 @@ func (p *CallForm) typecheckForm(gammaNameTypesCtx NamesTypesCtx, providerShadow
 			}
 
 			// Set types
-			p.parameters[i].Type = foundParamType
+			p.parameters[i].Type = types.Unfold(foundParamType, labelledTypesEnv)
 
 			// compare annotated polarities
 			if polarityError := checkExplicitPolarityValidity(p, p.parameters[i]); polarityError != nil {
